@@ -19,57 +19,8 @@ def is_spec_op(op):
 
 NOT_CLAIMED = {}
 
-PROPS = {
-    'C10': {
-        'level_text': 'Coq theorems (Properties/C10.v): for each of the 19 shipped k-mer configurations, every storage value and '
-                      'every in-range argument, each modelled operation (get, set_mut, set_slice_mut, extend_left/right, rc, '
-                      'to/from_u64, hamming_dist, at/gc_count, from_bytes/ascii, to_string, kmers_from_bytes/ascii) succeeds and '
-                      'decodes to the same operation on the plain K-letter list. Values are universally quantified (symbolic '
-                      'bit-vector reflection); configurations x positions x run lengths are enumerated by vm_compute. The model '
-                      'is tied to the code by regenerated mask/table constants and a differential run on >10^6 cases.',
-        'level_note': 'Trusted: Coq kernel+VM; the hand transcription of kmer.rs/lib.rs into coq/Packed/KmerModel.v (checked only by '
-                      'the differential run and the pins); extraction (ExtrOcamlBasic); harness. No axioms.',
-        'technique': 'reflective symbolic bit-vector sweep lifted to all values + list induction (Coq), differential correspondence',
-        'rule': 'all 19 shipped k-mer types; storage values: exhaustive for K<=6 (all 4^K), else structured (all-A, all-T, '
-                'alternating, single bit, single lane, palindromes) + random; every op at every position/base/run (K<=8 or '
-                'thorough) or a spread; non-trivial = the k-mer has at least two different bases',
-        'theorems': [],
-        'assumptions': ['IntKmer/VarIntKmer code is as transcribed in coq/Packed/KmerModel.v (checked by this run on the '
-                        'generated cases only)'],
-    },
-    'C11': {
-        'level_text': 'Coq theorems (Properties/C11.v): every finite in-range history of value-producing operations (empty, '
-                      'from_u64/bytes/ascii, extend_left/right, rc, set, packed set, min_rc) on any of the 19 shipped types succeeds, '
-                      'keeps the unused lanes zero and spells what the same history does to the plain string (induction over the '
-                      'history on top of the C10 refinements); hence ==, cmp and the derived Hash input of any two results are those '
-                      'of the strings (compare_lex by induction on base-4 digits, no sweep); sort/dedup/membership corollaries.',
-        'level_note': 'Hash is proved about the bytes fed to the Hasher (the storage word, little endian); collisions of the hasher '
-                      'itself are outside the property. boomphf lookup is exercised by the harness only. Model transcription trusted '
-                      'as for C10. No axioms.',
-        'technique': 'invariant (wf) + refinement by induction over operation histories (Coq), differential correspondence',
-        'rule': 'random histories (1-40 ops) per type from every constructor; for each a second route to the same string (K extends, '
-                'per-position sets in random order, packed runs with garbage payload, rc routes, lower-case ascii) plus near misses; '
-                '==, cmp, recorded Hasher input, sort+dedup, binary_search and BoomHashMap lookups compared with the list spec; '
-                'non-trivial = all cases (every history has >= 1 op)',
-        'assumptions': ['derive(PartialEq, Ord, Hash) act on the storage field only (PhantomData contributes nothing) - checked by '
-                        'the recorded hasher input and cmp results on the generated cases'],
-    },
-    'C12': {
-        'level_text': 'Coq theorems (Properties/C12.v): on plain lists rc is an involution sending position i to n-1-i and base b to 3-b, '
-                      'commutes with k-mer extraction (kmer_at_rc), canon(rc x)=canon x, canon is the minimum of x and rc x, palindrome '
-                      'iff x = rc x (never for odd length); transported to the 19 k-mer types (rc, min_rc, min_rc_flip incl. the '
-                      'flag-on-equality behaviour, is_palindrome) for all values by the C10 reflection sweep; extension sets: every '
-                      'Exts method over all 256 values x 2 directions x 4 bases exhaustively (vm_compute lifted by forallb_forall). '
-                      'Lmer/DnaString/slice rc are transported in C17/C14/C15 and additionally compared here at API level.',
-        'level_note': 'Trusted: Coq kernel+VM; transcription of lib.rs Exts and kmer.rs into the models (pins for every mask/shift); '
-                      'the container cross-checks (Lmer, DnaString, slices vs the list rc) in this check are differential runs '
-                      'against the list specification, their proofs belong to C14/C15/C17. No axioms.',
-        'technique': 'list induction (Coq) + exhaustive finite sweep (Exts) + reflection sweep (k-mers), differential correspondence',
-        'rule': 'all 256 Exts values x every method/direction/base (exhaustive; merge/add partners sampled in quick, all 256 in thorough); '
-                'k-mer rc/min_rc/is_palindrome on structured values incl. palindromes for all 19 types; containers at lengths '
-                '0,1,2,3,27..33,59..65,91..97,127..129,200 + random: DnaString, slices, Lmer1/2/3 rc and k-mers of the rc for 7 k-mer '
-                'types; non-trivial = non-homopolymer sequence / non-empty extension set',
-        'assumptions': ['Exts methods are as transcribed in coq/Packed/ExtsModel.v with masks from the pins'],
-        'exhaustive_part': 'Exts: 256 values',
-    },
-}
+# one JSON file per property under lib/props/ (keeps concurrent additions conflict-free)
+import glob as _glob, json as _json, os as _os
+PROPS = {}
+for _f in sorted(_glob.glob(_os.path.join(_os.path.dirname(_os.path.abspath(__file__)), 'props', 'C*.json'))):
+    PROPS[_os.path.basename(_f)[:-5]] = _json.load(open(_f))
